@@ -11,3 +11,13 @@ def sha256_of(path):
 @REG.spec([Str], Str, uninterpreted='py_lower')
 def lower(s):
     return s.lower()
+
+
+from pyvc.api import Obj
+
+
+@REG.spec([Str, Obj], Obj, uninterpreted='dep_identifier')
+def dep_identifier(name, kwargs):
+    """the cache key of a dependency lookup"""
+    from mesonbuild.dependencies.detect import get_dep_identifier
+    return get_dep_identifier(name, kwargs)
